@@ -21,6 +21,12 @@ type Corpus struct {
 
 // Compile compiles the sources on the worker pool (with or without AdditionalAbortChecks).
 func Compile(c *core.Ctx, pool *core.Pool, srcs []Source, abort bool, perJob int) (*Corpus, error) {
+	return CompileOpt(c, pool, srcs, abort, perJob, true)
+}
+
+// CompileOpt: dedupe=false keeps every function of every source (C33 needs the call graph of each
+// source: Fn.VTail is then rewritten from per-source ordinals to function IDs).
+func CompileOpt(c *core.Ctx, pool *core.Pool, srcs []Source, abort bool, perJob int, dedupe bool) (*Corpus, error) {
 	var jobs []core.Job
 	var spans [][2]int
 	for i := 0; i < len(srcs); i += perJob {
@@ -61,16 +67,26 @@ func Compile(c *core.Ctx, pool *core.Pool, srcs []Source, abort bool, perJob int
 				}
 			default:
 				cp.Accepted++
+				ordToID := map[int]int{}
 				for _, f := range sr.Fns {
 					cp.Total++
 					key := hashOf(f)
-					if seen[key] {
+					if dedupe && seen[key] {
 						continue
 					}
 					seen[key] = true
 					f.ID = len(cp.Fns) + 1
+					f.Src = spans[k][0] + si
+					ordToID[f.Ord] = f.ID
 					cp.Fns = append(cp.Fns, f)
 					cp.Origin[f.ID] = src
+				}
+				if !dedupe {
+					for _, f := range sr.Fns {
+						for i, o := range f.VTail {
+							f.VTail[i] = ordToID[o]
+						}
+					}
 				}
 			}
 		}
